@@ -309,24 +309,22 @@ def plan(tier):
         for fn in ('add_mul_karatsuba_with_efficient_sum', 'add_mul_karatsuba'):
             t.append({'kind': 'full', 'n': n, 'm': m, 'fn': fn, 'be': (n + m) % 4 == 0})
     full = [(18, 18), (20, 20), (21, 21), (19, 20), (36, 36)] if q else [
-        (18, 18), (20, 20), (21, 21), (19, 20), (23, 23), (24, 24), (35, 35), (36, 36), (37, 37), (40, 40), (41, 41), (18, 36), (36, 20), (47, 47), (48, 48), (64, 64)]
+        (18, 18), (20, 20), (21, 21), (19, 20), (23, 23), (24, 24), (35, 35), (36, 36), (37, 37), (40, 40), (41, 41), (18, 36), (36, 20), (47, 47), (48, 48)]
     for n, m in full:
         for fn in ('add_mul_karatsuba_with_efficient_sum', 'add_mul_karatsuba'):
             for be in (False, True):
                 t.append({'kind': 'full', 'n': n, 'm': m, 'fn': fn, 'be': be})
-    wide = [(25, 25), (33, 26), (31, 31), (24, 40)] if q else [(25, 25), (26, 27), (33, 26), (31, 31), (32, 32), (24, 40), (40, 24), (48, 48)]
+    wide = [(25, 25), (33, 26), (31, 31), (24, 40)] if q else [(25, 25), (26, 27), (33, 26), (31, 31), (32, 32), (24, 40), (40, 24)]
     for n, m in wide:
         for fn in ('add_mul_pow2_m1', 'add_mul', 'add_mul_dadda', 'add_mul_wallace', 'add_mul_alter'):
             t.append({'kind': 'full', 'n': n, 'm': m, 'fn': fn, 'be': (n + m) % 2 == 1})
-    sq = [47, 48, 49, 50, 53, 54] if q else [47, 48, 49, 50, 51, 52, 53, 54, 55, 60, 64, 72, 96, 97, 98, 106]
+    sq = [47, 48, 49, 50, 53, 54] if q else [47, 48, 49, 50, 51, 52, 53, 54, 55, 60, 64, 72]
     for n in sq:
         for be in (False, True):
             t.append({'kind': 'fullsq', 'n': n, 'be': be})
-    for n, m in ((18, 18), (20, 20)) if q else ((18, 18), (20, 20), (24, 24), (36, 36), (40, 40)):
+    for n, m in ((18, 18), (20, 20)) if q else ((18, 18), (20, 20), (24, 24), (36, 36)):
         t.append({'kind': 'folded', 'n': n, 'm': m})
     t.append({'kind': 'foldedsq', 'n': 48})
-    if not q:
-        t.append({'kind': 'foldedsq', 'n': 96})
     return t
 
 
@@ -341,7 +339,7 @@ def describe(tier):
         '(3 x 2^20 per square width); folded: operands driven by a 16-input host. Oracle: bit-sliced schoolbook product. '
         'distinct = distinct (entry point, widths, endianness, host, gate count).',
         'bounds': {'quick': 'W=13 (n+m<=13), squares n<=12, rec {18,20,21,23} x m<=3 and (1,18),(2,20) (all values), full 18x18,20x20,21x21,19x20,36x36, squares 47,48,49,50,53,54, folded 18x18, 20x20, square 48',
-                   'thorough': 'W=18, squares n<=18, rec {18,20,21,23} x m<=4 and more, full up to 64x64 (16 width pairs), squares up to 106 (16 widths), folded hosts up to 40x40 / square 96'}[tier],
+                   'thorough': 'W=18, squares n<=18, rec {18,20,21,23} x m<=4 and more, full up to 48x48 (15 width pairs + 9 odd/half pairs), squares up to 72 (12 widths), folded hosts up to 36x36 / square 48'}[tier],
         'exhaustive': True,
         'explanation': 'exhaustive over operand VALUES only for the small/square/rec groups; full/fullsq/folded are exhaustive over the stated operand alphabet and say nothing about other operand values',
         'assumptions': ['vmc.refmodel gate table; bit-sliced reference multiplier (checked against Python integer multiplication at start-up)'],
